@@ -90,9 +90,9 @@ Sign(en, uid, msg, dig, prov, stream, skew) ==
         THEN /\ reply' = [NoReply EXCEPT !.op = "sign", !.err = TRUE]
              /\ cur' = cur + skew
              /\ UNCHANGED cand
-        ELSE LET e == IF EntryGm(en) THEN S!Digest(EffUid(uid), pub, msg) ELSE dig
-                 dr == Draw(d, e, stream, cur + skew, 0)
-             IN /\ dr.ok
+        ELSE \E e \in {IF EntryGm(en) THEN S!Digest(EffUid(uid), pub, msg) ELSE dig} :       \* (singleton \E: evaluate once, bind the value)
+             \E dr \in {Draw(d, e, stream, cur + skew, 0)} :
+                /\ dr.ok
                 /\ cur' = dr.cur
                 /\ cand' = Honest(pub, EntryGm(en) \/ prov, uid, msg, e, dr.r, dr.s)
                 /\ reply' = [NoReply EXCEPT !.op = "sign", !.r = dr.r, !.s = dr.s, !.sig = D!EncSig(dr.r, dr.s), !.tries = dr.tries]
@@ -113,9 +113,9 @@ SignObserved(en, uid, msg, dig, err, asInts, bytes, r, s) ==
         THEN /\ err
              /\ reply' = [NoReply EXCEPT !.op = "sign", !.err = TRUE]
              /\ UNCHANGED cand
-        ELSE LET e == IF EntryGm(en) THEN S!Digest(EffUid(uid), pub, msg) ELSE dig
-                 p == IF asInts THEN [ok |-> TRUE, r |-> BN!Norm(r), s |-> BN!Norm(s)] ELSE D!StrictSig(bytes)
-             IN /\ ~err
+        ELSE \E e \in {IF EntryGm(en) THEN S!Digest(EffUid(uid), pub, msg) ELSE dig} :
+             \E p \in {IF asInts THEN [ok |-> TRUE, r |-> BN!Norm(r), s |-> BN!Norm(s)] ELSE D!StrictSig(bytes)} :
+                /\ ~err
                 /\ p.ok
                 /\ S!VerifyEq(pub, e, p.r, p.s)
                 /\ cand' = Honest(pub, EntryGm(en), uid, msg, e, p.r, p.s)
@@ -236,8 +236,8 @@ KindEnabled(c, kind) ==
 Mutate(kind, aux) ==
   /\ cand.kind[1] = "none" /\ kind[1] # "none"
   /\ KindEnabled(cand, kind)
-  /\ LET m == Mutated(cand, kind, aux)
-     IN /\ (Benign(kind) \/ m.bytes # cand.bytes \/ m.pub # cand.pub \/ m.e # cand.e)    \* a mutation changes something
+  /\ \E m \in {Mutated(cand, kind, aux)} :
+        /\ (Benign(kind) \/ m.bytes # cand.bytes \/ m.pub # cand.pub \/ m.e # cand.e)    \* a mutation changes something
         /\ cand' = m
   /\ reply' = [NoReply EXCEPT !.op = "mutate"]
   /\ UNCHANGED <<d, pub, cache, cur>>
